@@ -157,7 +157,7 @@ def run(ctx):
         "trusted: TLC, the concretizer (states what it wrote), the independent line classifier, the projections",
     ]
     # (b) code -> spec: record first (the recorder does not depend on TLC)
-    ntr, maxlines = (60, 40) if quick else (600, 60)
+    ntr, maxlines = (60, 40) if quick else (400, 60)
     traces = []
     for i in range(ntr):
         _cls, lines, _ = cc.gen_wellformed(rng, rng.choice([6, 12, 25, maxlines]))
@@ -199,8 +199,8 @@ def run(ctx):
     alive = cc.Alive()
     every = max(1, len(cases) // 40)
     nstress = 0
-    stress_every = max(1, len(cases) // (45 if quick else 600))
-    big_at = {len(cases) // 3, 2 * len(cases) // 3} if quick else set(range(0, len(cases), max(1, len(cases) // 12)))
+    stress_every = max(1, len(cases) // (45 if quick else 400))
+    big_at = {len(cases) // 3, 2 * len(cases) // 3} if quick else set(range(0, len(cases), max(1, len(cases) // 8)))
     for ci, c in enumerate(cases):
         if not replay_case(ctx, rng, c, k, "case:" + "".join(x[0] for x in c["t"]), canonical_first=quick,
                            alive=alive if ci % every == 0 else None):
@@ -226,7 +226,7 @@ def run(ctx):
     hcases.sort(key=lambda c: (len(c["ops"]), len(c["t"]), json.dumps(c, sort_keys=True)))
     seen = set()
     hcases = [c for c in hcases if not (cc.json_key([c["t"], c["ops"]]) in seen or seen.add(cc.json_key([c["t"], c["ops"]])))]
-    nh = cc.replay_hist_cases(ctx, rng, hcases, c04=True, nconc=2 if quick else 3, nstress=6 if quick else 60, alive=alive)
+    nh = cc.replay_hist_cases(ctx, rng, hcases, c04=True, nconc=2, nstress=6 if quick else 40, alive=alive)
     m = alive.recheck()
     if m:
         ctx.violation({"kind": "alive", "note": m}, m)
